@@ -154,8 +154,9 @@ class MPEGFrame(object):
             frame_size = 1152
             slot = 1
 
+        # Layer I frames consist of 4 byte slots, all others of 1 byte slots
         frame_length = (
-            ((frame_size // 8 * self.bitrate) // self.sample_rate) +
+            ((frame_size // 8 // slot * self.bitrate) // self.sample_rate) +
             padding) * slot
 
         self.sketchy = True
